@@ -423,6 +423,25 @@ AST_QUERIES = [
     ("parallel algorithm (execution policy argument)", "hard",
      'callExpr(hasArgument(0, hasType(hasUnqualifiedDesugaredType(recordType(hasDeclaration(cxxRecordDecl('
      'matchesName("::std::execution::.*policy"))))))), unless(isExpansionInSystemHeader()))'),
+    # C07-m8 family: the iteration order of a hash container is a function of its bucket array, which clear() keeps
+    # and which only grows – a container that outlives one call (static, thread_local, data member) iterates in an
+    # order that depends on the history of the thread / object.  Any declaration of such a type is listed.
+    ("hash container (iteration order depends on the history of its bucket array)", "hard",
+     'declaratorDecl(hasType(qualType(hasCanonicalType(anyOf(qualType(hasDeclaration(classTemplateSpecializationDecl('
+     'hasAnyName("::std::unordered_map", "::std::unordered_set", "::std::unordered_multimap", "::std::unordered_multiset")))), '
+     'referenceType(pointee(hasDeclaration(classTemplateSpecializationDecl(hasAnyName("::std::unordered_map", '
+     '"::std::unordered_set", "::std::unordered_multimap", "::std::unordered_multiset"))))))))), '
+     'unless(isExpansionInSystemHeader()), unless(isExpansionInFileMatching("/harness/|/third_party/")))'),
+    # C07-m7 family: a constructor that gives a scalar data member (arithmetic, enumeration, pointer) neither a member
+    # initialiser nor a default member initialiser: `T x;` leaves it indeterminate, and whatever is not serialised keeps
+    # that value after `T x; x.load(...)`.  `= default` constructors here; user-provided ones (bodies included) are
+    # clang-tidy's cppcoreguidelines-pro-type-member-init below – both lists are hard.
+    ("`= default` constructor leaves a scalar data member without initialiser", "hard",
+     'cxxConstructorDecl(isDefaulted(), unless(isImplicit()), '
+     'unless(isCopyConstructor()), unless(isMoveConstructor()), ofClass(cxxRecordDecl(forEach(fieldDecl('
+     'unless(hasInClassInitializer(anything())), hasType(qualType(anyOf(isInteger(), realFloatingPointType(), '
+     'hasCanonicalType(enumType()), hasCanonicalType(pointerType()))))).bind("f")))), unless(hasAnyConstructorInitializer(forField(equalsBoundNode("f")))), '
+     'unless(isExpansionInSystemHeader()), unless(isExpansionInFileMatching("/harness/|/third_party/")))'),
     ("randomness / time / process identity outside random::engine", "hard",
      'expr(anyOf(callExpr(callee(functionDecl(hasAnyName("::rand", "::srand", "::random", "::drand48", "::time", "::clock", '
      '"::getpid", "::gettimeofday", "::clock_gettime", "::std::rand", "::std::srand", "::std::time", "::std::clock")))), '
@@ -468,6 +487,12 @@ AST_REVIEWED = {
     ("mutable object with static or thread storage duration", "kernel/evolution.tcc", "static unsigned last_run(0);"):
         "log_evolution(): decides whether a blank line separates runs in the statistics files – formatting of a log, "
         "and the transcripts include those files",
+    ("`= default` constructor leaves a scalar data member without initialiser", "kernel/individual.h",
+     "individual() = default; // unsigned age_;"):
+        "protected constructor of the CRTP base: every derived constructor names `individual()` in its initialiser list "
+        "(value-initialisation: age_ = 0) except i_ga() / i_de() = default, whose objects are either value-initialised "
+        "(`T()`, summary, vector(n)) or `T ind; ind.load(...)` – individual::load assigns age_ (serialised) before any "
+        "read; the checkpoint / restart chains run ga / de under valgrind and a painted stack",
     ("pointer-keyed associative container", "kernel/analyzer.h",
      "std::map<const symbol *, sym_counter, cmp_symbol_ptr> sym_counter_;"):
         "ordered by cmp_symbol_ptr = opcode order, not by address",
@@ -534,9 +559,17 @@ def ast_scan():
         return [], [], "clang-query failed on the scan translation unit (rc=%d): %s" % (rc, (se + so)[-800:])
     hits, qi, lines = [], 0, so.splitlines()
     seen = set()
+    field = None
     for i, ln in enumerate(lines):
         if re.match(r"^\d+ match(?:es)?\.$", ln):
             qi += 1
+            continue
+        if ln.startswith("Match #"):
+            field = None
+            continue
+        m = re.match(r"^(/.*?):(\d+):(\d+): note: \"f\" binds here", ln)
+        if m:
+            field = norm_ws(lines[i + 1]) if i + 1 < len(lines) else ""
             continue
         m = re.match(r"^(/.*?):(\d+):(\d+): note: \"root\" binds here", ln)
         if m and qi < len(AST_QUERIES):
@@ -544,11 +577,13 @@ def ast_scan():
             path = m.group(1)
             rel = path[len(src_root):] if path.startswith(src_root) else path
             text = norm_ws(lines[i + 1]) if i + 1 < len(lines) else ""
+            if field is not None:
+                text += " // " + field
             key = (tag, rel, text)
             if (key, int(m.group(2))) in seen:      # one declaration, several template instantiations
                 continue
             seen.add((key, int(m.group(2))))
-            hits.append({"what": tag, "severity": sev, "file": rel, "line": int(m.group(2)), "text": text[:160],
+            hits.append({"what": tag, "severity": sev, "file": rel, "line": int(m.group(2)), "text": text[:200],
                          "reviewed": AST_REVIEWED.get(key)})
     try:
         rc, so, se = C.sh(["clang-tidy-14", "-checks=-*,cppcoreguidelines-pro-type-member-init",
@@ -1397,9 +1432,10 @@ def run_(chk, replay=None):
                     chk.notes.append(msg)
         for u in uninit:
             if not u["reviewed"]:
-                chk.notes.append("clang-tidy: src/%s:%d %s – not on the reviewed list (an uninitialised member read by the "
-                                 "evolution would make runs differ; relying on the MALLOC_PERTURB_ transcripts)"
-                                 % (u["file"], u["line"], u["message"]))
+                broken.append("clang-tidy cppcoreguidelines-pro-type-member-init: src/%s:%d %s – not on the reviewed list "
+                              "(checks/c07.py UNINIT_REVIEWED): a default-initialised object (`T x; x.load(...)`) keeps "
+                              "dead stack content in that member unless load / the caller assigns it"
+                              % (u["file"], u["line"], u["message"]))
         sites, blocks = clock_scan()
         chk.cov["clock_sites"] = sites
         chk.cov["clock_controlled_code"] = blocks
